@@ -114,8 +114,13 @@ func runC08(c *Ctx) {
 			c.Ob("C08-D2", "adapter.sessionAwareAdapter.cleaner/packets", st.Pos(), HasGuard(st, `.*\.HasExpired\(a\.maxDisconnectDuration\)==true`) && li.HoldsW(st, "a.mu"), "the cleaner may drop a packet only when HasExpired(a.maxDisconnectDuration) is true, under a.mu; guards="+strings.Join(GuardTerms(st), ","))
 			// what is dropped contains no packet newer than the expired one: append(packets[:i], packets[i+1:]...) or packets[i+1:]
 			v := Term(st.(*ssa.Store).Val)
-			okShape := regexp.MustCompile(`^append\(a\.packets\[:(.+)\], a\.packets\[\((.+) \+ 1\):\]\)$`).MatchString(v) || regexp.MustCompile(`^a\.packets\[\((.+) \+ 1\):\]$`).MatchString(v)
-			c.Ob("C08-D2", "adapter.sessionAwareAdapter.cleaner/drops-only-expired-index", st.Pos(), okShape, "the cleaner stores "+v+" (expected the log without the expired entry, or without it and everything older)")
+			// the cut ends exactly behind the expired entry (index + 1): packets[i+1:], slices.Delete(packets, 0, i+1),
+			// append(packets[:0], packets[i+1:]...); that nothing is taken from the middle is C08-D8's business
+			okShape := regexp.MustCompile(`^a\.packets\[\((.+) \+ 1\):\]$`).MatchString(v) ||
+				regexp.MustCompile(`^slices\.Delete\(a\.packets, 0, \((.+) \+ 1\)\)$`).MatchString(v) ||
+				regexp.MustCompile(`^append\(a\.packets\[:0\], a\.packets\[\((.+) \+ 1\):\]\)$`).MatchString(v) ||
+				regexp.MustCompile(`^append\(a\.packets\[:(.+)\], a\.packets\[\((.+) \+ 1\):\]\)$`).MatchString(v)
+			c.Ob("C08-D2", "adapter.sessionAwareAdapter.cleaner/drops-only-expired-index", st.Pos(), okShape, "the cleaner stores "+v+" (expected the log cut just behind the expired entry)")
 		}
 		c.Ob("C08-D2", "adapter.sessionAwareAdapter.cleaner/sites", cl.Pos(), len(sts) >= 1 && len(findInstrs(cl, func(in ssa.Instruction) bool { return isBuiltinDelete(in, "a.sessions") })) >= 1, "the cleaner must expire both sessions and packets")
 		// cleaner duration
@@ -378,6 +383,213 @@ func runC08(c *Ctx) {
 				}
 			}
 			c.Ob("C08-D7", "sio.Namespace.add/restore-to-registration", rs[0].Pos(), okA, "RestoreSession fixes the missed packets under the adapter's mutex and releases it; the socket becomes reachable for broadcasts only in doConnect (after newServerSocket has encoded the missed packets, and after the middlewares when UseMiddlewares is set); no lock spans the two (held at RestoreSession: "+ali.Held(rs[0].Instr).String()+"): a broadcast in between is lost for this client although it is told the session was recovered")
+		}
+	}
+
+	c.Rule("C08-D8", "the packet log stays contiguous: sessionAwareAdapter.packets is only ever extended at the end (append of the new packet in Broadcast) or cut at the front (a.packets[k:], "+
+		"slices.Delete(a.packets, 0, k), append(a.packets[:0], a.packets[k:]...)) — never has an element taken out of the middle: RestoreSession replays everything behind the client's offset, so a packet "+
+		"removed from between two kept ones is silently missing from a session that is still reported recovered (F40)", 2)
+	{
+		fv := p.Field("adapter", "sessionAwareAdapter", "packets")
+		n := 0
+		for _, fn := range p.SrcFuncs() {
+			for _, in := range findInstrs(fn, fieldStorePred(fv)) {
+				if isFreshBase(in.(*ssa.Store).Addr.(*ssa.FieldAddr).X) {
+					continue
+				}
+				n++
+				v := in.(*ssa.Store).Val
+				t := Term(v)
+				okForm := false
+				how := t
+				switch x := v.(type) {
+				case *ssa.Slice:
+					// a.packets[k:]
+					okForm = x.High == nil && x.Low != nil && strings.HasSuffix(Term(x.X), ".packets")
+				case *ssa.Call:
+					if b, isB := x.Call.Value.(*ssa.Builtin); isB && b.Name() == "append" && len(x.Call.Args) == 2 {
+						base := Term(x.Call.Args[0])
+						switch {
+						case strings.HasSuffix(base, ".packets"):
+							// append(a.packets, p): extension at the end — the second operand must not be a part of the log itself
+							okForm = !strings.Contains(Term(x.Call.Args[1]), ".packets[")
+						case strings.HasSuffix(base, ".packets[:0]"):
+							// append(a.packets[:0], a.packets[k:]...): the suffix moved to the front
+							if sl, isSl := x.Call.Args[1].(*ssa.Slice); isSl {
+								okForm = sl.High == nil && sl.Low != nil && strings.HasSuffix(Term(sl.X), ".packets")
+							}
+						}
+					} else if sc := x.Call.StaticCallee(); sc != nil && strings.HasPrefix(sc.String(), "slices.Delete[") && len(x.Call.Args) == 3 {
+						okForm = strings.HasSuffix(Term(x.Call.Args[0]), ".packets") && Term(x.Call.Args[1]) == "0"
+						how = "slices.Delete(" + Term(x.Call.Args[0]) + ", " + Term(x.Call.Args[1]) + ", " + Term(x.Call.Args[2]) + ")"
+					} else if x.Call.StaticCallee() != nil && strings.HasPrefix(x.Call.StaticCallee().String(), "slices.Delete") {
+						how = t
+					}
+				case *ssa.Const:
+					okForm = x.Value == nil
+				}
+				c.Ob("C08-D8", "adapter.sessionAwareAdapter.packets@"+FuncName(fn), in.Pos(), okForm, "the log is set to "+trunc(how, 100)+": neither an extension at the end nor a cut at the front — a packet leaves the middle of the log, and a session whose offset is an older packet is recovered without it")
+			}
+		}
+		if n < 2 {
+			c.Undecided("C08-D8: only %d stores to sessionAwareAdapter.packets found", n)
+		}
+	}
+
+	c.Rule("C08-D9", "the replay starts behind the packet the client names: in RestoreSession every position from which the missed-packet scan can start (index + 1) is a position at which `a.packets[pos].ID == offset` "+
+		"was found true on the way, or the not-found value — not a remembered position (a memo of log positions goes stale with every clean-up pass: the session is recovered from the wrong place, "+
+		"with a gap or with packets it already has)", 1)
+	{
+		fn := p.Fn("adapter", "sessionAwareAdapter.RestoreSession")
+		n := 0
+		for _, b := range fn.Blocks {
+			for _, in := range b.Instrs {
+				bo, ok := in.(*ssa.BinOp)
+				if !ok || bo.Op != token.ADD || Term(bo.Y) != "1" || !isIntType(bo.Type()) {
+					continue
+				}
+				// the start of the missed-packet scan: (index + 1) that feeds an index into a.packets
+				usedAsStart := false
+				var chase func(v ssa.Value, d int)
+				chase = func(v ssa.Value, d int) {
+					if d > 3 || v.Referrers() == nil {
+						return
+					}
+					for _, r := range *v.Referrers() {
+						switch y := r.(type) {
+						case *ssa.IndexAddr:
+							if strings.HasSuffix(Term(y.X), ".packets") && y.Index == v {
+								usedAsStart = true
+							}
+						case *ssa.Phi:
+							chase(y, d+1)
+						}
+					}
+				}
+				chase(bo, 0)
+				if !usedAsStart {
+					continue
+				}
+				if _, isPhi := bo.X.(*ssa.Phi); !isPhi {
+					continue // the scan's own i + 1
+				}
+				if ph := bo.X.(*ssa.Phi); len(ph.Edges) == 2 && (ph.Edges[0] == ssa.Value(bo) || ph.Edges[1] == ssa.Value(bo)) {
+					continue // the scan's induction variable
+				}
+				n++
+				bad := ""
+				seen := map[ssa.Value]bool{}
+				var walk func(v ssa.Value)
+				walk = func(v ssa.Value) {
+					if seen[v] || bad != "" {
+						return
+					}
+					seen[v] = true
+					ph, isPhi := v.(*ssa.Phi)
+					if !isPhi {
+						if k, isK := v.(*ssa.Const); isK && Term(k) == "-1" {
+							return
+						}
+						bad = Term(v) + " (not under a packet-id comparison)"
+						return
+					}
+					for i, e := range ph.Edges {
+						if k, isK := e.(*ssa.Const); isK && Term(k) == "-1" {
+							continue
+						}
+						if _, isP := e.(*ssa.Phi); isP {
+							// either another merge, or the scan index itself arriving over a guarded edge
+							pred := ph.Block().Preds[i]
+							if len(pred.Instrs) > 0 && HasGuard(pred.Instrs[len(pred.Instrs)-1], `^\(a\.packets\[`+regexpQuote(Term(e))+`\]\.ID == offset\)==true$`) {
+								continue
+							}
+							walk(e)
+							continue
+						}
+						pred := ph.Block().Preds[i]
+						if len(pred.Instrs) > 0 && HasGuard(pred.Instrs[len(pred.Instrs)-1], `^\(a\.packets\[`+regexpQuote(Term(e))+`\]\.ID == offset\)==true$`) {
+							continue
+						}
+						bad = Term(e) + " (arrives without the test a.packets[" + Term(e) + "].ID == offset)"
+					}
+				}
+				walk(bo.X)
+				c.Ob("C08-D9", fmt.Sprintf("adapter.sessionAwareAdapter.RestoreSession/start-is-the-found-offset#%d", n), bo.Pos(), bad == "", "the missed-packet scan can start behind position "+trunc(bad, 120))
+			}
+		}
+		if n == 0 {
+			c.Undecided("C08-D9: the start of the missed-packet scan (index + 1 used to index a.packets) was not recognised in RestoreSession")
+		}
+	}
+
+	c.Rule("C08-D10", "what is logged is not reused: the argument list handed to (adapter.Adapter).Broadcast — which the session-aware adapter keeps as the logged packet's data — is built in that call on a slice "+
+		"made there (make / literal, extended by append), never on pooled or otherwise longer-lived storage that the next emit overwrites", 2)
+	{
+		n := 0
+		for _, fn := range p.SrcFuncs() {
+			if fn.Pkg == nil {
+				continue
+			}
+			if sh, _ := shortOf(fn.Pkg.Pkg.Path()); sh != "sio" && sh != "adapter" {
+				continue
+			}
+			for _, cs := range Calls(fn) {
+				if !cs.Common().IsInvoke() || cs.Common().Method.Name() != "Broadcast" || len(cs.Common().Args) < 2 || cs.Instr.Parent() != fn {
+					continue
+				}
+				if !strings.HasSuffix(cs.Common().Value.Type().String(), "adapter.Adapter") {
+					continue
+				}
+				n++
+				bad := ""
+				seen := map[ssa.Value]bool{}
+				var walk func(v ssa.Value)
+				walk = func(v ssa.Value) {
+					if seen[v] || bad != "" {
+						return
+					}
+					seen[v] = true
+					v = resolveParam(v)
+					switch x := v.(type) {
+					case *ssa.MakeSlice:
+					case *ssa.Const:
+					case *ssa.Parameter:
+						// the caller's variadic arguments, forwarded: a fresh slice per call by the language
+					case *ssa.Slice:
+						if _, isAl := x.X.(*ssa.Alloc); isAl {
+							return
+						}
+						walk(x.X)
+					case *ssa.Phi:
+						for _, e := range x.Edges {
+							walk(e)
+						}
+					case *ssa.Call:
+						if bi, isB := x.Call.Value.(*ssa.Builtin); isB && bi.Name() == "append" {
+							walk(x.Call.Args[0])
+							return
+						}
+						bad = Term(v)
+					case *ssa.UnOp:
+						if al, isAl := x.X.(*ssa.Alloc); isAl && al.Referrers() != nil {
+							for _, r := range *al.Referrers() {
+								if st, isSt := r.(*ssa.Store); isSt && st.Addr == ssa.Value(al) {
+									walk(st.Val)
+								}
+							}
+							return
+						}
+						bad = Term(v)
+					default:
+						bad = Term(v)
+					}
+				}
+				walk(cs.Common().Args[1])
+				c.Ob("C08-D10", "sio/broadcast-args-fresh@"+FuncName(fn), cs.Pos(), bad == "", "the argument list handed to Broadcast is built on "+trunc(bad, 80)+": the recovery log keeps this very slice, and storage that is reused by a later emit rewrites the logged packets (a recovering client gets the newest packet several times instead of the ones it missed)")
+			}
+		}
+		if n < 2 {
+			c.Undecided("C08-D10: only %d Broadcast calls on the adapter found in package sio", n)
 		}
 	}
 
